@@ -6,7 +6,9 @@ FRAGMENT = {
  'quick': {'runs': 60000, 'budget_s': 32, 'workers': 16},
  'thorough': {'runs': 2000000, 'budget_s': 900, 'workers': 16, 'det_sample': 200},
  'level_text': 'seeded exploration of caption command histories on up to six of the eight channels x channel/field interleavings (seeded scheduler = the two '
-               'field multiplexers, resume codes inserted on every sender change) x field-1 control code doubling (never / always / per code), against my own '
+               'field multiplexers, resume codes inserted on every sender change) x field-1 control code doubling (never / always / per code) x decoder joining a '
+               'field mid-stream (3 runs in 10: the field opens with the tail of a caption, no mode command seen yet, while the other field is captioned) x '
+               'vbi_channel_switched() in the middle of the transmissions (1 run in 6), against my own '
                'EIA-608 / 47 CFR 15.119 decoder model fed with the same byte pairs; the real service decoder (vbi_decode -> caption.c) under ASan+UBSan; all '
                'eight pages fetched after every frame; sampling, not proof',
  'level_note': 'fault-free channel (C08 has no fault clause). GENERATED AND COMPARED: RCL/RU2-4/RDC/TR/RTD, EOC, EDM, ENM, PAC (15 rows, 8 indents, 7 colours, '
@@ -23,19 +25,32 @@ FRAGMENT = {
                '(guard_* counters): extended characters, FA/FAU, colour PACs in Text mode, Text rows >32 characters, BS/DER with the cursor run into column 32, '
                'text before a PAC after EOC, EOC outside pop-on style, roll-up growing above row 1, a leading NUL in a field-2 text pair, identical control '
                'pairs in consecutive field-2 frames, X-filler-X on field 1 (sent doubled); style changes pop-on <-> paint-on/roll-up are preceded by the '
-               'erase commands captioning practice uses (knob hygiene=1; with 0 the single-working-copy design of caption.c shows, see report). trusted: the '
+               'erase commands captioning practice uses (knob hygiene=1; with 0 the single-working-copy design of caption.c shows, see report). ORPHAN DATA '
+               '(characters, PACs, mid-row and other non-selecting codes a field carries before its first RCL/RU2-4/RDC/TR/RTD/EOC since decoder birth or '
+               'since vbi_channel_switched): the model discards them (they act on the channel and style the field\'s last mode command selected - there is '
+               'none); pages of the OTHER field stay strictly compared (this catches seeded C08-m6); LENIENCY for the four channels of the SAME field '
+               '(DESIGN soft spot (ii), ignored or shown): not compared until their memories were erased by a command (EDM+ENM, erasing style change, TR), '
+               'attributes until a PAC / colour code, encoder sends a PAC first (lenient_orphan_same_field counts the skipped comparisons; knob '
+               'orphan_strict=1, never generated, removes the leniency). CHANNEL SWITCH: reference = new decoder (documented: "deletion of all cached ... '
+               'Closed Caption pages"), all eight pages must be blank after the next frame; no event demanded for that; underline/italic/flash of text '
+               'written after the switch without PAC not compared (knob chsw_strict=0; caption.c keeps these three pen attributes across the reset, '
+               'reported with replay out/C08/s01-*.json and fix-1.diff). Automatic channel-switch detection by a timestamp gap is not exercised. trusted: the '
                'model, my reading of the standards from memory (text not available offline; every disputed point is a leniency or a guard), clang sanitizers',
  'design_ref': 'DESIGN.md section 6 (C08)',
  'rule': 'one evaluation = one simulated run: 1-6 channel encoder tasks (CC1-4, T1-4) each with 1-4 captions (pop-on / roll-up / paint-on / text, swarm-selected '
-         'feature classes, optional unstructured tail), byte pairs interleaved by the seeded scheduler, one vbi_decode() per frame with lines 21+284 (22+335), '
+         'feature classes, optional unstructured tail; in 3 runs of 10 the channels of one or both fields begin with the tail of a caption whose mode command '
+         'the decoder did not see; in 1 run of 6 one or two vbi_channel_switched() calls), byte pairs interleaved by the seeded scheduler, one vbi_decode() '
+         'per frame with lines 21+284 (22+335), '
          '8 x vbi_fetch_cc_page per frame; non-trivial = at least 4 page comparisons of which at least 2 against a non-blank model page; distinct = distinct '
          'event-log hash',
  'fault_kinds': ['sched_resume_inserted', 'sched_ctrl_doubled', 'sched_ctrl_single', 'frames_both_fields', 'ref_dedupe', 'ref_window_moved',
-                 'ref_window_top_clamped', 'ref_text_scrolled', 'ref_col32_overwrite', 'unaddressed_page_change', 'event_clause_checked'],
+                 'ref_window_top_clamped', 'ref_text_scrolled', 'ref_col32_overwrite', 'unaddressed_page_change', 'event_clause_checked',
+                 'sched_join_midstream', 'sched_orphan_pair', 'probe_orphan_text_while_other_field_active', 'sched_channel_switch'],
  'components': {'real': ['src/vbi.c (vbi_decode, events)', 'src/caption.c', 'src/lang.c (vbi_caption_unicode)'],
                 'stub': ['field multiplexers = seeded scheduler over eight channel encoder tasks (resume codes, doubling, fillers)',
                          'reference EIA-608 decoder model (RefDecoder)']},
  'assumptions': ['EIA-608 / 47 CFR 15.119 read from memory; src/cc608_decoder.c (second decoder in the repository, with citations) consulted as a second '
                  'opinion for triage only',
-                 'the encoder always selects a style before sending text (characters in MODE_NONE are not generated)']}
+                 'since decoder birth / channel switch a field may carry any non-selecting data before its first mode command (decoder joined mid-stream); once a '
+                 'channel is selected the encoder always selects a style before sending text on another channel (resume code on sender change)']}
 }
